@@ -8,7 +8,13 @@ import numpy as np
 
 from .poly import Poly, SymbolicBranch
 from .universe import FlodymArray
-from .replay_arrays import compare_array, gen_val
+from .replay_arrays import compare_array, gen_val as _gen_val_int
+
+
+def gen_val(g):
+    """non-integral (quarters: exact in binary floating point) values for the workspace histories: an array that was silently
+    turned into an integer array by an earlier assignment would truncate them"""
+    return _gen_val_int(g) / 4
 from .replay_index import universe_of, key_value, _fmt
 
 OP_TAGS = {
@@ -89,7 +95,18 @@ def _run(vec, mode):
                 elif o == "apply_neg":
                     r = x.apply(np.negative)
                 elif o == "full_like":
-                    r = FlodymArray.full_like(x, 7.0)
+                    if (i + len(x.dims.letters)) % 2 == 0:
+                        # the fill value as an ndarray of the template's shape, which the caller re-uses afterwards
+                        fill = np.full(x.values.shape, 7.0)
+                        r = FlodymArray.full_like(x, fill)
+                        held = np.array(r.values, copy=True)
+                        fill[...] = -1.0
+                        if not np.array_equal(np.asarray(r.values, dtype=float), np.asarray(held, dtype=float)):
+                            problems.append(tagp + where + "{C15} the array returned by full_like changes when the caller re-uses its fill-value "
+                                                           "array afterwards (it shares memory with that argument)")
+                            return problems
+                    else:
+                        r = FlodymArray.full_like(x, 7.0)
                 elif o == "cast_to":
                     r = x.cast_to(U.dimset(ds))
                 elif o == "sum_to":
@@ -116,7 +133,7 @@ def _run(vec, mode):
             elif op == "assign_num":
                 t, key = args
                 # (a symbolic constant in symbolic mode: a float element would make later 0-d reads float-typed arrays)
-                regs[t][pykey(U, key, i)] = Poly.const(5) if mode == "sym" else 5.0
+                regs[t][pykey(U, key, i)] = Poly.const(5) if mode == "sym" else (5 if i % 2 == 0 else 5.0)
             elif op == "assign_nd":
                 t, key = args
                 # (a 0-d OBJECT ndarray would be stored as an element by numpy: pass the element)
